@@ -118,20 +118,22 @@ Qed.
 
 Section Updates.
   Variable hash : bytes -> bytes.
-  (* one tree update per write; a deleted key is handed over with the empty value (= leaf removed), a set key with the
+  Variable K : Type.
+  Variable enc : bytes -> K.
+  (* one tree update per write; a deleted key is handed over as a deletion (empty value: leaf removed), a set key with the
      hash of its value; the tree key keeps the 6-byte store prefix and hashes the rest *)
-  Theorem tree_updates_spec : forall ws ups, tree_updates hash ws = Some ups ->
+  Theorem tree_updates_spec : forall ws ups, tree_updates hash enc ws = Some ups ->
     Forall2 (fun w u => match w with
-                        | WSet k v => tree_key hash k = Some (fst u) /\ snd u = hash v
-                        | WDel k => tree_key hash k = Some (fst u) /\ snd u = []
+                        | WSet k v => exists tk, tree_key hash k = Some tk /\ fst u = enc tk /\ snd u = Some (hash v)
+                        | WDel k => exists tk, tree_key hash k = Some tk /\ fst u = enc tk /\ snd u = None
                         end) ws ups.
   Proof.
     induction ws; simpl; intros. - inversion H; constructor.
     - destruct a; simpl in H.
-      + destruct (tree_key hash k) eqn:E1; try discriminate. destruct (tree_updates hash ws) eqn:E2; try discriminate.
-        inversion H; subst. constructor; auto.
-      + destruct (tree_key hash k) eqn:E1; try discriminate. destruct (tree_updates hash ws) eqn:E2; try discriminate.
-        inversion H; subst. constructor; auto.
+      + destruct (tree_key hash k) eqn:E1; try discriminate. destruct (tree_updates hash enc ws) eqn:E2; try discriminate.
+        inversion H; subst. constructor; eauto.
+      + destruct (tree_key hash k) eqn:E1; try discriminate. destruct (tree_updates hash enc ws) eqn:E2; try discriminate.
+        inversion H; subst. constructor; eauto.
   Qed.
 
   Theorem tree_key_shape : forall k tk, tree_key hash k = Some tk ->
